@@ -25,7 +25,7 @@ def run(tier):
         plan += [("rep1", "mutate", 10), ("rep1", "crossover", 9), ("eq", "crossover", 8), ("rep2", "crossover", 8), ("rep2", "mutate", 12), ("range", "crossover", 8), ("range", "mutate", 10)]
     first_draws = {"rep2": 4, "rep3": 4, "rep1": 3, "range": 2}  # number of values of the first draw (the count symbol's alternatives)
     for spec, mode, nch in plan:
-        for c0 in range(first_draws.get(spec, 1)) if spec in first_draws else [-1]:
+        for c0 in ((2, 3) if (q and spec == "rep3") else range(first_draws.get(spec, 1))) if spec in first_draws else [-1]:
             conds.append(Cond("h_repair.py", "stays_in_grammar", to, twin="reach" if (mode == "repair2" and c0 in (-1, 1)) else None, path_timeout=to / 2,
                               env={"H_SPEC": spec, "H_MODE": mode, "H_CHOICES": str(nch), "H_C0": str(c0)}))
     # (a) inductive unit harnesses, one per fuzz() implementation (stub sub-nodes)
